@@ -16,9 +16,11 @@ What is proved
   directions), `alpha_update_valid`, `cv_exit_accuracy` (the duality-gap test as written),
   `inflation_correct` (set-level identity), `inflated_exit_accuracy` (both together: the
   returned `max(ray_len − inflation, 0)` is within `tolerance·ray_len` of the true distance
-  **when the core supports were used**), `inflation_double_counted_counterexample` (they are not
-  used for sphere/capsule × generic pairs, yet the inflation is subtracted: finding
-  F-nesterov-inflation-generic), loop level: `cv_exit_accuracy_loop` (partial: soundness of the
+  **when the core supports were used**), `inflation_only_with_core_supports` (since the repair of
+  commit 78b7577 the inflation is non-zero only then, so the former applies to every pair),
+  `inflation_double_counted_before_fix_counterexample` (the old code subtracted it for sphere/capsule ×
+  generic pairs too: former finding F-nesterov-inflation-generic) and
+  `inflation_fixed_on_former_counterexample`, loop level: `cv_exit_accuracy_loop` (partial: soundness of the
   simplex projections is a hypothesis; proved for the 2-point routine in
   `projectLineOrigin_sound`, refuted outside the un-accelerated precondition in
   `projectLineOrigin_extrapolates_counterexample`, and for the 4-point routine even inside the
@@ -215,19 +217,19 @@ theorem fuel_sufficient {σ : Type} (cfg : Cfg ℝ) (supp : σ → V → Except 
 
 example : Nesterov.measure cexCfg (initSt true) < 128 + 2 := by simp [Nesterov.measure, initSt, cexCfg]
 
-/-- **C09, as-is counterexample (inflation double-counted).** `Sphere((0,0,0), 1)` against
-`ConvexHullVertices([(5,0,0),(5,1,0),(5,0,1),(6,0,0)])`: `select_support` finds no specialised
-support for the hull, so `support_function` falls back to the world-frame supports of **both**
-colliders (the sphere's includes its radius), yet `inflation = 1` is subtracted: the faithful
-model of `gjk_nesterov_accelerated` (default arguments from `Gen.Constants`) returns distance 3
-through the convergence exit, while the true distance of the two sets is 4. -/
-theorem inflation_double_counted_counterexample :
-    dispatchBranch cexC0 cexC1 = 1 ∧ inflationOf cexC0 cexC1 = 1 ∧
-    gjkColliders cexC0 cexC1 M3.one ⟨5, 0, 0⟩ cexGen0 cexGen1 false false = .ok cexRes ∧
+/-- **C09, counterexample for the code before the repair (commit 78b7577, inflation double-counted).**
+`Sphere((0,0,0), 1)` against `ConvexHullVertices([(5,0,0),(5,1,0),(5,0,1),(6,0,0)])`: `select_support`
+finds no specialised support for the hull, so `support_function` falls back to the world-frame supports
+of **both** colliders (the sphere's includes its radius), yet the old code subtracted `inflation = 1`:
+the faithful model of the old `gjk_nesterov_accelerated` (default arguments from `Gen.Constants`)
+returns distance 3 through the convergence exit, while the true distance of the two sets is 4. -/
+theorem inflation_double_counted_before_fix_counterexample :
+    dispatchBranch cexC0 cexC1 = 1 ∧ inflationOf_asIs_before_fix cexC0 cexC1 = 1 ∧
+    gjkColliders_asIs_before_fix cexC0 cexC1 M3.one ⟨5, 0, 0⟩ cexGen0 cexGen1 false false = .ok cexRes ∧
     cexRes.exit = 3 ∧ distanceOf cexRes = 3 ∧ IsDist (mdiff cexBall cexHull) 4 := by
-  refine ⟨cex_dispatch_generic, cex_inflation, ?_, rfl, ?_, cex_true_distance⟩
-  · unfold gjkColliders
-    rw [cex_inflation]
+  refine ⟨cex_dispatch_generic, cex_inflation_before_fix, ?_, rfl, ?_, cex_true_distance⟩
+  · unfold gjkColliders_asIs_before_fix
+    rw [cex_inflation_before_fix]
     have := cex_run
     unfold cexSupp at this
     simp only [D3.Gen.gjk__gjk_nesterov_accelerated__gjk_nesterov_accelerated__max_interations,
@@ -235,6 +237,51 @@ theorem inflation_double_counted_counterexample :
       D3.Gen.gjk__gjk_nesterov_accelerated__gjk_nesterov_accelerated__tolerance]
     rw [this]; rfl
   · norm_num [distanceOf, cexRes]
+
+/-- **C09, the repaired dispatch on the same scene.** The model of the code as it is now gives the
+pair no inflation and returns the true distance 4. -/
+theorem inflation_fixed_on_former_counterexample :
+    inflationOf cexC0 cexC1 = 0 ∧
+    gjkColliders cexC0 cexC1 M3.one ⟨5, 0, 0⟩ cexGen0 cexGen1 false false = .ok cexRes0 ∧
+    cexRes0.exit = 3 ∧ distanceOf cexRes0 = 4 ∧ IsDist (mdiff cexBall cexHull) 4 := by
+  refine ⟨cex_inflation, ?_, rfl, ?_, cex_true_distance⟩
+  · unfold gjkColliders
+    rw [cex_inflation]
+    have := cex_run_fixed
+    unfold cexSupp at this
+    simp only [D3.Gen.gjk__gjk_nesterov_accelerated__gjk_nesterov_accelerated__max_interations,
+      D3.Gen.gjk__gjk_nesterov_accelerated__gjk_nesterov_accelerated__upper_bound,
+      D3.Gen.gjk__gjk_nesterov_accelerated__gjk_nesterov_accelerated__tolerance]
+    rw [this]; rfl
+  · norm_num [distanceOf, cexRes0]
+
+/-- **C09, inflation only with core supports (dispatch after the repair).** For every pair of
+colliders: a non-zero `inflation` implies that `support_function` takes branch 0 (both supports are
+the specialised core supports in the frame of collider 0), where it equals the sum of the radii of
+the sphere / capsule colliders; in the generic fall-back the inflation is 0. Hence the hypothesis of
+`inflated_exit_accuracy` ("the supports are the core supports of the sets that are inflated") is met
+by every pair `gjk_nesterov_accelerated` accepts — with `rA = rB = 0`, `inflate K 0 = K` in the
+generic case. For two specialised colliders (all the primitives variant accepts) the value is the
+one of the unguarded formula. -/
+theorem inflation_only_with_core_supports (c0 c1 : Coll ℝ) :
+    (inflationOf c0 c1 ≠ 0 → dispatchBranch c0 c1 = 0) ∧
+    (dispatchBranch c0 c1 = 1 → inflationOf c0 c1 = 0) ∧
+    (dispatchBranch c0 c1 = 0 → inflationOf c0 c1 =
+      (if c0.kind.inflated then c0.radius else 0) + (if c1.kind.inflated then c1.radius else 0) ∧
+      inflationOf c0 c1 = inflationOf_asIs_before_fix c0 c1) := by
+  refine ⟨fun hne => ?_, inflationOf_generic c0 c1, fun h => ⟨inflationOf_core c0 c1 h,
+    inflationOf_eq_before_fix_of_found c0 c1 h⟩⟩
+  by_contra hb
+  have h1 : dispatchBranch c0 c1 = 1 := by
+    unfold dispatchBranch at hb ⊢
+    split
+    · rename_i hf; rw [if_pos hf] at hb; exact absurd rfl hb
+    · rfl
+  exact hne (inflationOf_generic c0 c1 h1)
+
+example : inflationOf (⟨.sphere, ⟨0, 0, 0⟩, 1⟩ : Coll ℝ) ⟨.box, ⟨1, 1, 1⟩, 0⟩ = 1 ∧
+    dispatchBranch (⟨.sphere, ⟨0, 0, 0⟩, 1⟩ : Coll ℝ) ⟨.box, ⟨1, 1, 1⟩, 0⟩ = 0 := by
+  simp [inflationOf, inflationOf_asIs_before_fix, dispatchBranch, Kind.found, Kind.inflated]
 
 /-! ## original GJK -/
 
